@@ -358,7 +358,9 @@ namespace AIToolbox::MDP {
             rewards_.coeffRef(s, a) = experience_.getReward(s, a);
 
         if ( visitSum == 1ul ) {
-            transitions_[a].coeffRef(s, s) = 0.0;
+            // First data point for this pair (possibly after the Experience
+            // has been reset): drop whatever the row contained.
+            transitions_[a].row(s) *= 0.0;
             transitions_[a].coeffRef(s, s1) = 1.0;
         } else {
             const double newVisits = static_cast<double>(experience_.getVisits(s, a, s1));
